@@ -171,6 +171,15 @@ def method(ex, st, recv, name, args, kw, node=None):
             yield st, Sym(STR, ex.absfun_s("str_lower", [z3.StringSort()], z3.StringSort())(recv.z)); return
         if name == "replace" and isinstance(recv, str) and all(isinstance(a, str) for a in args):
             yield st, recv.replace(*args); return
+        if name in ("rstrip", "lstrip", "upper", "title", "capitalize", "casefold", "swapcase") and not args:
+            if isinstance(recv, str): yield st, getattr(recv, name)(); return
+            yield st, Sym(STR, ex.absfun_s("str_" + name, [z3.StringSort()], z3.StringSort())(recv.z)); return
+        if name in ("isdigit", "isalpha", "isalnum", "isspace", "isupper", "islower", "isnumeric", "isdecimal", "isidentifier") and not args:
+            if isinstance(recv, str): yield st, getattr(recv, name)(); return
+            yield st, Sym(BOOL, ex.absfun_s("str_" + name, [z3.StringSort()], z3.BoolSort())(recv.z)); return
+        if name in ("strip", "rstrip", "lstrip") and len(args) == 1:
+            if isinstance(recv, str) and isinstance(args[0], str): yield st, getattr(recv, name)(args[0]); return
+            yield st, Sym(STR, ex.absfun_s("str_%s2" % name, [z3.StringSort()] * 2, z3.StringSort())(lift(recv).z, lift(args[0]).z)); return
         if name == "endswith":
             yield st, Sym(BOOL, z3.SuffixOf(lift(args[0]).z, lift(recv).z)); return
         if name == "startswith":
